@@ -270,7 +270,7 @@ func init() {
 	})
 	reg(&PropSpec{
 		ID: "C06", Level: "model_checking",
-		Explanation: bmcText + "C06: every stage (Map, FMap, Filter, ForEach, Void, Fold, Partition, Join, Take, TakeWhile, StdErr, Map with failing Lift/Try, Unfold, Emit, Throttling) under a maximally permissive environment: the producer may close the input early at any point, every consumer (values, second output, done channel, errors) may stop receiving for good at any point, cancel may fire at any step or never - coin flips and schedule are solver variables. Checked: no panic in any goroutine; every received value is the next element of the uncancelled result (prefix); at every quiescent state: inputs closed and outputs drained => all returned channels closed and library goroutines gone; cancelled and inputs closed => the same with no assumption on consumers (Throttling's pacer is a permitted daemon until cancel). Generators (Unfold, Emit) and clocked stages are checked for all runs of up to K steps (stated prefix bound).",
+		Explanation: bmcText + "C06: every stage (Map, FMap, Filter, ForEach, Void, Fold, Partition, Join, Take, TakeWhile, StdErr, Map with failing Lift/Try, Unfold, Emit, Emit over a failing Try function, Throttling) under a maximally permissive environment: the producer may close the input early at any point, every consumer (values, second output, done channel, errors) may stop receiving for good at any point, cancel may fire at any step or never - coin flips and schedule are solver variables. Checked: no panic in any goroutine; every received value is the next element of the uncancelled result (prefix); at every quiescent state: inputs closed and outputs drained => all returned channels closed and library goroutines gone; cancelled and inputs closed => the same with no assumption on consumers (Throttling's pacer is a permitted daemon until cancel). Generators (Unfold, Emit) and clocked stages are checked for all runs of up to K steps (stated prefix bound); for Emit over Try a bounded-liveness assertion stands in for termination: once cancelled and with both consumers stopped the function is applied at most cap(out)+cap(errors)+1 more times.",
 		Assumptions: bmcAssumptions,
 		Jobs: func(tier string) []JobSpec {
 			caps, ns := []int{0, 1}, []int{1}
@@ -298,6 +298,7 @@ func init() {
 				js = append(js, JobSpec{Group: "pipe", Harness: "VLife", Mode: "bmc", Params: map[string]int{"stage": 13, "cap": c, "n": 1, "generator": 1}, K: k})
 				js = append(js, JobSpec{Group: "pipe", Harness: "VLife", Mode: "bmc", Params: map[string]int{"stage": 14, "cap": c, "n": 1, "generator": 1, "clock": 1}, K: k})
 				js = append(js, JobSpec{Group: "pipe", Harness: "VLife", Mode: "bmc", Params: map[string]int{"stage": 15, "cap": c, "n": 1, "generator": 1, "clock": 1}, K: k})
+				js = append(js, JobSpec{Group: "pipe", Harness: "VLife", Mode: "bmc", Params: map[string]int{"stage": 16, "cap": c, "n": 1, "generator": 1, "clock": 1}, K: k})
 			}
 			return js
 		},
